@@ -341,14 +341,25 @@ theorem ctor_move_alloc_extended_rule (cfg : Cfg) (c o a : Nat) (w : World α)
     (hgen : ¬ (cfg.isStdAlloc || (cfg.libAlwaysEq && cfg.alwaysEq)) = true) :
     (ctorMoveAlloc cfg c o a w).sat (fun _ w' => (w'.hdr c).alloc = a ∧ ∀ d, d ≠ c → (w'.hdr d).alloc = (w.hdr d).alloc)
       (fun _ w' => ∀ d, d ≠ c → (w'.hdr d).alloc = (w.hdr d).alloc) := by
+  have hdel : ¬ ctorMoveAllocDelegates cfg.policy = true := by
+    unfold ctorMoveAllocDelegates Cfg.policy; simpa using hgen
   unfold ctorMoveAlloc
-  rw [if_neg hgen, bind_run, getV_run]
+  rw [if_neg hdel, bind_run, getV_run]
   simp only []
   refine ctor_sets (AllocKept.ite (AllocKept.moveInitialize cfg c o) (AllocKept.bind (AllocKept.getV _) (fun v => AllocKept.ite ?_ ?_))) w
   · exact AllocKept.bind (AllocKept.allocate _ _ _) (fun nb => AllocKept.bind (AllocKept.setDataPtr _ _) (fun _ => AllocKept.bind (AllocKept.setCapacity _ _) (fun _ =>
       AllocKept.bind (AllocKept.tryCatch (AllocKept.uninitializedMove _ _ _ _ _ _ _) (fun ex => AllocKept.bind (AllocKept.deallocate _ _ _) (fun _ => AllocKept.throwE ex)))
         (fun _ => AllocKept.setSize _ _))))
   · exact AllocKept.bind (AllocKept.setToInlineStorage _) (fun _ => AllocKept.bind (AllocKept.uninitializedMove _ _ _ _ _ _ _) (fun _ => AllocKept.setSize _ _))
+
+/-- the two allocator-extended move constructors are selected by complementary conditions (exactly one is viable), and
+    the one that ignores its allocator argument is viable only when all allocators of the type are equal -/
+theorem ctor_move_alloc_overloads (p : PolicyEnv) :
+    ctorMoveAllocGeneral p = !ctorMoveAllocDelegates p ∧
+    (ctorMoveAllocDelegates p = true → p.isStdAlloc = true ∨ (p.libAlwaysEq = true ∧ p.alwaysEq = true)) := by
+  unfold ctorMoveAllocGeneral ctorMoveAllocDelegates
+  refine ⟨rfl, fun h => ?_⟩
+  simpa using h
 
 /-- every other member function (push_back, insert, erase, resize, reserve, …) keeps the allocator: see
     `SvModel.AllocKept.*` (Proofs/AllocKept.lean), e.g. -/
